@@ -4,7 +4,6 @@
 //    (declaration order: seconds, then fraction)
 //  * From<usize> for SequenceNumber (extracted)
 //  * std::cmp::{min,max}: one-line assume_specifications
-//  * BTreeMap::values().map(f).min()  (assumed contract of the std iterator adapters)
 //  * Option::and_then (assumed contract)
 // ---------------------------------------------------------------------------------------------
 @@extract struct src/structure/time.rs Timestamp derive=Clone,Copy
@@ -59,40 +58,3 @@ pub assume_specification<T: Ord + core::marker::Destruct>[ std::cmp::max ](a: T,
     ensures r == (if a.cmp_spec(&b) == Ordering::Greater { a } else { b });
 pub assume_specification<T: Ord + core::marker::Destruct>[ std::cmp::min ](a: T, b: T) -> (r: T)
     ensures r == (if a.cmp_spec(&b) == Ordering::Greater { b } else { a });
-
-// ---- BTreeMap::values().map(f).min()   (Iterator::map / Iterator::min, assumed) ----
-#[verifier::external_body]
-#[verifier::reject_recursive_types(K)]
-#[verifier::reject_recursive_types(V)]
-#[verifier::reject_recursive_types(F)]
-pub struct BValuesMap<'a, K, V, F> { inner: core::iter::Map<std::collections::btree_map::Values<'a, K, V>, F> }
-impl<'a, K, V, F> BValuesMap<'a, K, V, F> {
-    pub uninterp spec fn src(&self) -> Seq<(K, V)>;   // the entries still to be mapped
-    pub uninterp spec fn f(&self) -> F;
-}
-impl<'a, K, V> BValues<'a, K, V> {
-    #[verifier::external_body]
-    pub fn map<T, F: Fn(&'a V) -> T>(self, f: F) -> (r: BValuesMap<'a, K, V, F>)
-        requires forall|x: &'a V| f.requires((x,)),
-        ensures r.src() == self.rem(), r.f() == f,
-    { unimplemented!() }
-}
-// ys are the values f returned for the entries of src (f.ensures is the relation between an argument
-// and the value actually returned), and r is their minimum (None iff there is none)
-pub open spec fn is_min_of_vals<'a, K, V: 'a, T: Ord, F: Fn(&'a V) -> T>(src: Seq<(K, V)>, f: F, ys: Seq<T>, r: Option<T>) -> bool {
-    &&& ys.len() == src.len()
-    &&& forall|i: int| 0 <= i < src.len() ==> f.ensures((&src[i].1,), #[trigger] ys[i])
-    &&& r.is_none() <==> src.len() == 0
-    &&& r.is_some() ==> exists|i: int| 0 <= i < ys.len() && #[trigger] ys[i] == r.unwrap()
-    &&& r.is_some() ==> forall|i: int| 0 <= i < ys.len() ==> kle(r.unwrap(), #[trigger] ys[i])
-}
-pub open spec fn is_min_of<'a, K, V: 'a, T: Ord, F: Fn(&'a V) -> T>(src: Seq<(K, V)>, f: F, r: Option<T>) -> bool {
-    exists|ys: Seq<T>| is_min_of_vals(src, f, ys, r)
-}
-impl<'a, K, V, F> BValuesMap<'a, K, V, F> {
-    // Iterator::min: None iff there is no element; otherwise a mapped value that is <= every mapped value
-    #[verifier::external_body]
-    pub fn min<T: Ord>(self) -> (r: Option<T>) where F: Fn(&'a V) -> T
-        ensures is_min_of(self.src(), self.f(), r),
-    { unimplemented!() }
-}
